@@ -64,6 +64,16 @@ def main():
             if e.get("proposal") == "fix":
                 diff = os.path.join(ROOT, e["fix_diff"])
                 t = title_of(e, titles)
+                same = [f for f in kf["findings"] if f.get("fix_diff") == e["fix_diff"] and f.get("status") == "fixed"]
+                if same:  # the same repair was already committed under another finding id
+                    commit = same[0]["commit"]
+                    rec.update(status="fixed", commit=commit, line=f"fixed: property={rec['property']} {commit} {t}",
+                               what=e["what"], witness=e.get("witness", ""), fix_diff=e["fix_diff"])
+                    print(f"{fid}: repaired by the commit of {same[0]['id']} ({commit})")
+                    if not dry:
+                        kf["findings"].append(rec)
+                        have[fid] = rec
+                    continue
                 if dry:
                     r = sh("git", "-C", "/repo", "apply", "--3way", "--check", diff)
                     print(f"{fid}: would commit 'fix: {t}' apply-check rc={r.returncode} {r.stderr.strip()[:200]}")
